@@ -110,3 +110,15 @@ pub open spec fn narsese_text(f: &NarseseFormat, n: Narsese) -> Seq<char> {
         NarseseValue::Task(t) => task_text(f, t),
     }
 }
+/// A2: `Vec::dedup` removes consecutive repeated elements (the lexical units do not include the
+/// enum term model, where the same contract is stated; it is not used on the pinned tree and is
+/// stated so that a change that starts to deduplicate is *decided*)
+pub open spec fn dedup_adjacent_l<T>(s: Seq<T>) -> Seq<T>
+    decreases s.len()
+{
+    if s.len() <= 1 { s }
+    else if s[s.len() - 2] == s.last() { dedup_adjacent_l(s.drop_last()) }
+    else { dedup_adjacent_l(s.drop_last()).push(s.last()) }
+}
+pub assume_specification<T: PartialEq, A: std::alloc::Allocator>[ Vec::<T, A>::dedup ](v: &mut Vec<T, A>)
+    ensures final(v)@ == dedup_adjacent_l(old(v)@);
